@@ -185,7 +185,9 @@ def walk_local(node, include_self=False):
 
 
 class Project(object):
-    def __init__(self, root=None, package='circus'):
+    def __init__(self, root=None, package='circus', canonical=True):
+        self.canonical = canonical
+        self.local_renames = []
         self.root = os.path.abspath(root or os.environ.get('VERIF_REPO', '/repo'))
         self.package = package
         self.modules = {}
@@ -194,6 +196,9 @@ class Project(object):
         self.consulted = set()
         self._load()
         self._link()
+        if canonical:
+            from .localnames import canonicalise
+            self.local_renames = canonicalise(self)
 
     # -- loading ---------------------------------------------------------
     def _load(self):
